@@ -328,11 +328,11 @@ theorem C03_gate_stream_from_empty (same : δ → δ → Bool) (hsym : ∀ x y, 
   obtain ⟨_, hi, hn, he⟩ := C03_gate_stream same hsym empty (gateInv_empty same) offers
   refine ⟨hi, ?_, ?_⟩
   · intro a ha b hb hab
-    haveI : Std.Symm (fun (a b : Node δ) => same a.data b.data = false ∧ same b.data a.data = false) :=
+    have : Std.Symm (fun (a b : Node δ) => same a.data b.data = false ∧ same b.data a.data = false) :=
       ⟨fun _ _ h => ⟨h.2, h.1⟩⟩
     exact (hn.forall ha hb (fun h => hab (by rw [h]))).1
   · intro a ha b hb hab
-    haveI : Std.Symm (fun (a b : Edge δ) => same a.data b.data = false ∧ same b.data a.data = false) :=
+    have : Std.Symm (fun (a b : Edge δ) => same a.data b.data = false ∧ same b.data a.data = false) :=
       ⟨fun _ _ h => ⟨h.2, h.1⟩⟩
     refine (he.forall ha hb ?_).1
     intro h
